@@ -1,5 +1,6 @@
 import Gv.Oracle.Cli
 import Gv.Oracle.CliPssm
+import Gv.Oracle.CliStatsSeq
 import Gv.Oracle.Det
 import Gv.Oracle.Clean
 import Gv.Oracle.Stats
@@ -7,4 +8,4 @@ import Gv.Oracle.Loop
 /-! oracle of property C14: only the handlers it needs -/
 open Gv Gv.Oracle
 
-def main : IO Unit := runOracle [CleanOps.handle, StatsOps.handle, DetOps.handle, CliPssmOps.handle, CliOps.handle]
+def main : IO Unit := runOracle [CleanOps.handle, StatsOps.handle, DetOps.handle, CliPssmOps.handle, CliStatsSeqOps.handle, CliOps.handle]
